@@ -1189,6 +1189,248 @@ def _(W):
     return fits(model, W.args["fit_x"], W.args["fit_y"], p0=[1.0, 1.0]), []
 
 
+# ---- sibling events: the same routines with ONE argument changed ---------------------------------------------------
+# A result cached under an incomplete key (cf. seeded c04_a3, c10_a3, c12_a2, c18_a2) is only visible when the SAME routine
+# is called with a DIFFERENT argument in between; every sibling below differs from an event above in one parameter.
+@event("sq2.default.pos")
+def _(W):
+    from PyMatterSim.static.sq import sq
+
+    return sq(W.snaps["s2"], qrange=3.0, onlypositive=True).getresults(), []
+
+
+@event("sq2.default.q4")
+def _(W):
+    from PyMatterSim.static.sq import sq
+
+    return sq(W.snaps["s2"], qrange=4.0, onlypositive=False).getresults(), []
+
+
+@event("sq3.default")
+def _(W):
+    from PyMatterSim.static.sq import sq
+
+    return [sq(W.snaps["s3"], qrange=3.0, onlypositive=False).getresults(), sq(W.snaps["s3"], qrange=3.0, onlypositive="z").getresults()], []
+
+
+@event("gr3.w")
+def _(W):
+    from PyMatterSim.static.gr import gr
+
+    return [gr(W.snaps["s3"], ppp=W.args["ppp3"], rdelta=0.4).getresults(), gr(W.snaps["s3"], ppp=np.array([1, 0, 1]), rdelta=0.25).getresults()], []
+
+
+@event("cgr.float.w")
+def _(W):
+    from PyMatterSim.static.gr import conditional_gr
+
+    s = W.snaps["s3"].snapshots
+    return [conditional_gr(s[1], W.args["cond_float3"], ppp=W.args["ppp3"], rdelta=0.4), conditional_gr(s[0], W.args["cond_float3"], ppp=W.args["ppp3"], rdelta=0.25)], []
+
+
+@event("csq.float.q")
+def _(W):
+    from PyMatterSim.static.sq import conditional_sq
+
+    s = W.snaps["s3"].snapshots
+    return list(conditional_sq(s[2], W.args["qvec3"][::-1].copy(), W.args["cond_float3"])) + list(conditional_sq(s[0], W.args["qvec3"], W.args["cond_float3"])), []
+
+
+@event("util.wavevector.alt")
+def _(W):
+    from PyMatterSim.utils.wavevector import choosewavevector
+
+    return [choosewavevector(3, 6, True), choosewavevector(2, 8, False), choosewavevector(3, 6, "x"), choosewavevector(3, 8, False), choosewavevector(2, 6, True)], []
+
+
+@event("nn.nearest.alt")
+def _(W):
+    from PyMatterSim.neighbors.calculate_neighbors import Nnearests
+
+    Nnearests(W.snaps["s3"], N=2, ppp=W.args["ppp3"], fnfile="o_nn2.dat")
+    Nnearests(W.snaps["s2"], N=4, ppp=W.args["ppp2"], fnfile="o_nn3.dat")
+    Nnearests(W.snaps["s3"], N=4, ppp=W.args["ppp0"], fnfile="o_nn4.dat")
+    return [fbytes("o_nn2.dat"), fbytes("o_nn3.dat"), fbytes("o_nn4.dat")], []
+
+
+@event("nn.cutoff.alt")
+def _(W):
+    from PyMatterSim.neighbors.calculate_neighbors import cutoffneighbors, cutoffneighbors_particletype
+
+    cutoffneighbors(W.snaps["s2"], 3.3, ppp=W.args["ppp2"], fnfile="o_nc2.dat")
+    cutoffneighbors(W.snaps["s3"], 2.6, ppp=W.args["ppp3"], fnfile="o_nc3.dat")
+    cutoffneighbors_particletype(W.snaps["s3"], W.args["rcutmat"].T.copy() * 0.9, ppp=W.args["ppp3"], fnfile="o_nt2.dat")
+    return [fbytes("o_nc2.dat"), fbytes("o_nc3.dat"), fbytes("o_nt2.dat")], []
+
+
+@event("read.same_name")
+def _(W):
+    """two different files written under ONE name, one after the other (a reader caching on the file name returns the first)"""
+    from PyMatterSim.reader.dump_reader import DumpReader
+    from PyMatterSim.reader.lammps_reader_helper import read_lammps_wrapper
+
+    out = []
+    for src in ("in_dump3.atom", "in_dump3tri.atom", "in_dumpmol.atom"):
+        with open(src) as f, open("o_same.atom", "w") as g:
+            g.write(f.read())
+        out.append(read_lammps_wrapper("o_same.atom", 3))
+        r = DumpReader("o_same.atom", ndim=3)
+        r.read_onefile()
+        out.append(r.snapshots)
+    return out, []
+
+
+@event("read.neighbors.alt")
+def _(W):
+    from PyMatterSim.neighbors.read_neighbors import read_neighbors
+
+    out = []
+    with open("in_nl3.dat") as f, open("in_nl2.dat") as g:  # two handles open at once, interleaved reads
+        out.append(read_neighbors(f, N3, 3))
+        out.append(read_neighbors(g, N2, 200))
+        out.append(read_neighbors(f, N3, 200))
+        out.append(read_neighbors(g, N2, 2))
+    return out, []
+
+
+@event("boo3.other_l")
+def _(W):
+    from PyMatterSim.static.boo import boo_3d
+
+    b = boo_3d(W.snaps["s3"], 5, "in_nl3.dat", weightsfile="in_w3.dat", ppp=W.args["ppp3"], Nmax=8)
+    return [b.smallqlm, b.ql_Ql(coarse_graining=False), b.w_W_cap(coarse_graining=False)[1], b.sij_ql_Ql(coarse_graining=False, c=-0.3)], []
+
+
+@event("boo3.sij.c")
+def _(W):
+    return [W.boo3.sij_ql_Ql(coarse_graining=False, c=0.6), W.boo3.spatial_corr(coarse_graining=False, rdelta=0.4),
+            W.boo3.time_corr(coarse_graining=False, dt=DT)], []
+
+
+@event("boo2.tavg.alt")
+def _(W):
+    return list(W.boo2.time_average(time_period=0.4, dt=DT, average_complex=False)) + list(W.boo2.time_average(time_period=0.2, dt=DT, average_complex=True)), []
+
+
+@event("tetra.alt")
+def _(W):
+    from PyMatterSim.static.geometric import q8_tetrahedral
+
+    return [q8_tetrahedral(W.snaps["s3"], ppp=W.args["ppp0"]), q8_tetrahedral(W.snaps["s3k3"], ppp=np.array([1, 1, 0]))], []
+
+
+@event("s2.alt")
+def _(W):
+    from PyMatterSim.static.pairentropy import S2
+
+    o = S2(W.snaps["s3"], W.args["s2sigmas"] * 1.2, ppp=W.args["ppp3"], rdelta=0.1, ndelta=30)
+    o2 = S2(W.snaps["s3"], W.args["s2sigmas"], ppp=W.args["ppp3"], rdelta=0.08, ndelta=40)
+    return [o.particle_s2(), o2.particle_s2()], []
+
+
+@event("util.remove_pbc.alt")
+def _(W):
+    from PyMatterSim.utils.pbc import remove_pbc
+
+    s2 = W.snaps["s2"].snapshots[0]
+    s3 = W.snaps["s3"].snapshots[0]
+    H = np.array([[6.0, 0.0, 0.0], [1.5, 7.0, 0.0], [-1.0, 0.5, 6.5]])
+    return [remove_pbc(s2.positions - s2.positions[1], s2.hmatrix, W.args["ppp2"]), remove_pbc(W.args["RIJ3"], H, W.args["ppp3"]),
+            remove_pbc(W.args["RIJ3"], s3.hmatrix, np.array([0, 1, 0])), remove_pbc(W.args["RIJ3"][0], s3.hmatrix, W.args["ppp3"])], []
+
+
+@event("util.time_average.alt")
+def _(W):
+    from PyMatterSim.utils.coarse_graining import time_average
+
+    return list(time_average(W.snaps["s3"], W.args["tavg_prop"], time_period=0.2, dt=DT)) + list(time_average(W.snaps["s3"], W.args["tavg_prop"].real.copy(), time_period=0.4, dt=DT)), []
+
+
+@event("util.blur.alt")
+def _(W):
+    from PyMatterSim.utils.coarse_graining import gaussian_blurring
+
+    g1, v1 = gaussian_blurring(W.snaps["s3"], W.args["blur_scalar"], np.array([3, 2, 2]), sigma=1.0, ppp=W.args["ppp3"], gaussian_cut=3.0)
+    g2, v2 = gaussian_blurring(W.snaps["s3"], W.args["blur_scalar"], W.args["ngrids3"], sigma=0.7, ppp=W.args["ppp0"], gaussian_cut=3.0)
+    g3, v3 = gaussian_blurring(W.snaps["s2"], W.args["blur_vec"], np.array([2, 3]), sigma=0.8, gaussian_cut=2.5)
+    return [g1, v1, g2, v2, g3, v3], []
+
+
+@event("util.spatial_average.alt")
+def _(W):
+    from PyMatterSim.utils.coarse_graining import spatial_average
+
+    return [spatial_average(W.args["savg_prop"][:, :, 0].copy(), "in_nl3.dat", Nmax=8), spatial_average(W.args["savg_prop"], "in_nl3.dat", Nmax=3)], []
+
+
+@event("util.funcs.alt")
+def _(W):
+    from PyMatterSim.utils.funcs import Legendre_polynomials, Wignerindex, grid_gaussian
+
+    return [Wignerindex(3), Wignerindex(4), Wignerindex(2), grid_gaussian(W.args["gauss_d"], 0.4), Legendre_polynomials(W.args["gauss_d"], 4)], []
+
+
+@event("util.sph_harm.alt")
+def _(W):
+    from PyMatterSim.utils.spherical_harmonics import sph_harm_l
+
+    return [sph_harm_l(l, 2.1, 0.4) for l in (2, 6, 10, 12)] + [sph_harm_l(6, 0.7, 2.9)], []
+
+
+@event("tcorr.alt")
+def _(W):
+    from PyMatterSim.dynamic.time_corr import time_correlation
+
+    return [time_correlation(W.snaps["s3"], W.args["tc_scalar"], dt=2 * DT), time_correlation(W.snaps["s3"], W.args["tc_scalar"].real.copy(), dt=DT),
+            time_correlation(W.snaps["s3"], W.args["tc_vec"][:, :, :2].copy(), dt=DT)], []
+
+
+@event("dyn.alt")
+def _(W):
+    r1 = W.dyn.relaxation(qconst=3.0, condition=W.args["sel_FN"])
+    r2 = W.dyn.relaxation(qconst=2 * np.pi)
+    r3 = W.dyn.sq4(t=0.4, qrange=2.5, condition=W.args["sel_FN_float"])
+    r4 = W.dyn.sq4(t=0.2, qrange=3.5)
+    return [r1, r2, r3, r4], []
+
+
+@event("volmat.alt")
+def _(W):
+    from PyMatterSim.neighbors.freud_neighbors import VolumeMatrix
+
+    return [VolumeMatrix(W.snaps["s3"], ndim=3, nconfig=0, deltar=0.01, transform_matrix=False),
+            VolumeMatrix(W.snaps["s2"], ndim=2, nconfig=2, deltar=0.02, transform_matrix=False)], []
+
+
+@event("hess.pair.alt")
+def _(W):
+    """same geometry as hess.pair, other exponents / prefactors / energy scales (memoisation keyed without them)"""
+    from PyMatterSim.static.hessians import InteractionParams, ModelName, PairInteractions
+
+    a = W.args
+    out = []
+    for m, kw in ((ModelName.inverse_power_law, dict(ipl_n=10, ipl_A=2.5)), (ModelName.harmonic_hertz, dict(harmonic_hertz_alpha=2.0)),
+                  (ModelName.inverse_power_law, dict(ipl_n=12, ipl_A=1.0)), (ModelName.lennard_jones, {})):
+        for shift in (True, False):
+            for eps in (a["epsilons"][0, 1], a["epsilons"][1, 1]):
+                out.append(PairInteractions(r=1.1, epsilon=eps, sigma=a["hsigmas"][0, 1], r_c=a["rcuts"][0, 1], shift=shift).caller(InteractionParams(model_name=m, **kw)))
+    return out, []
+
+
+@event("hessian.alt")
+def _(W):
+    r1 = _hessian(W, "s2", 2, "ppp2", lambda M, P: P(model_name=M.inverse_power_law, ipl_n=12, ipl_A=2.0), "o_h2b")[0]
+    r2 = _hessian(W, "s3", 1, "ppp0", lambda M, P: P(model_name=M.harmonic_hertz, harmonic_hertz_alpha=2.5), "o_h3b")[0]
+    return [r1, r2], []
+
+
+@event("vec.alt")
+def _(W):
+    from PyMatterSim.static.vector import participation_ratio
+
+    return [participation_ratio(W.args["vec3"]), participation_ratio(W.args["vec2"]), participation_ratio(W.args["vec3"] * 2.0)], []
+
+
 EVENT_NAMES = list(EVENTS)
 
 # events that touch the aliasing / shared-object paths; used for the depth-3 core and the quick-tier pair matrix
